@@ -467,8 +467,11 @@ def gen_bech32(rnd, quick):
     for spec in ("bech32", "bech32m"):
         # human-readable parts over the whole printable range (every letter occurs: upper-case spellings must decode alike)
         alpha = "abcdefghijklmnopqrstuvwxyz"
-        more = [alpha[i:i + 7] + alpha[(i * 3) % 26] for i in range(0, 26, 5)] + ["z", "zz", "xyz", "lzt", "az09", "z1z", "~z!", "`{|}", "@[]^_", "q-z.+*"]
-        more += ["".join(chr(rnd.randrange(33, 127)) for _ in range(rnd.randrange(1, 12))).lower() for _ in range(4 if quick else 60)]
+        more = [alpha[i:i + 7] + alpha[(i * 3) % 26] for i in range(0, 26, 5)] + ["z", "zz", "xyz", "lzt", "az09", "z1z", "~z!", "`{|}", "@^_", "q-z.+*"]
+        # (random prefixes over the printable range, minus the characters that make the command-line word something other than one
+        #  string to the value parser: brackets, comment sign, parentheses, quotes, comma, colon, backslash)
+        HRP_CHARS = [c for c in map(chr, range(33, 127)) if c not in "[]#()\"',:\\" and not c.isupper()]
+        more += ["".join(rnd.choice(HRP_CHARS) for _ in range(rnd.randrange(1, 12))) for _ in range(4 if quick else 60)]
         for hrp in ["bcrt", "bc", "tb", "a", "1", "split1", "?", "an83characterlonghumanreadablepartthatcontainsthenumber1andtheexcludedcharactersbio"] + more:
             for ver, n in ((0, 20), (0, 32), (1, 32), (1, 20), (0, 19), (0, 33), (2, 2), (16, 40), (17, 2), (31, 1), (1, 0), (0, 0), (1, 1), (1, 48), (1, 49)):
                 prog = rand_bytes(rnd, n)
